@@ -1,4 +1,5 @@
 import GeffModel.DictsJson
+import GeffModel.AdaptersJson
 open Lean Geff Geff.Proto Geff.Dicts Geff.Backends Geff.DictsJson
 
 /-- the constructs of one in-memory geff through the backends, as JSON -/
@@ -17,7 +18,9 @@ def axesOf (j : Json) : Except String (Option (List String)) :=
 * `writeDicts` {directed, nodes, edges, nnames, enames} → write_dicts up to the store
 * `nxWrite` {g} / `rxWrite` {g, node_id_dict} / `sgWrite` {g, axis_names} → the in-memory geff written and,
   with it, every backend's construct (the round trip with the store abstracted)
-* `construct` {m, axes}                              → every backend's construct of one in-memory geff -/
+* `construct` {m, axes}                              → every backend's construct of one in-memory geff
+* `adapter` {m, axes, md_axes, nn, ni, en, ee}       → every backend's construct, then every `GraphAdapter` function
+* `rxAdapter` {g, nn, ni, en, ee}                    → `RxGraphAdapter` of a graph not built by construct -/
 def handle (j : Json) : Except String Json := do
   let op ← (← j.getObjVal? "op").getStr?
   match op with
@@ -66,6 +69,8 @@ def handle (j : Json) : Except String Json := do
     let m ← memOfJson (← j.getObjVal? "m")
     let ax ← axesOf j
     return Json.mkObj (constructs m ax true)
+  | "adapter" => Geff.AdaptersJson.handleAdapter j
+  | "rxAdapter" => Geff.AdaptersJson.handleRxAdapter j
   | o => throw s!"unknown op {o}"
 
 def main : IO Unit := Proto.run handle
